@@ -20,3 +20,14 @@ package config
 //@   property C18
 //@   nopanic
 //@   ensures [bounds] err == nil ==> cfg.MaxOpenConnections >= 0
+
+// LoadFromViper merges the file under the caller's viper (command line, environment): every key of
+// the file is copied, then EVERY key of the caller's viper is set over it with the caller's value -
+// whatever that value is (an explicit false, 0 or "" on the command line still beats the file).
+//@ func LoadFromViper(inputViper) (cfg, err)
+//@   property C18
+//@   requires [input] inputViper != nil
+//@   observe mset := call Set
+//@   observe iget := call Get
+//@   loop 1 invariant [file-copied] rangeindex >= 0 ==> mset.count == 1 && iget.count == 1 && mset.arg2 == iget.res0
+//@   loop 2 invariant [command-line-overrides-file] rangeindex >= 0 ==> mset.count == 1 && iget.count == 1 && iget.arg0 == inputViper && mset.arg2 == iget.res0
